@@ -1,3 +1,5 @@
+\* measured: 743,441 distinct states, 110,907,642 transitions, 11 min at load 40 (8 workers);
+\* same configuration as MC_quick with larger domains (its action coverage carries over)
 \* leader transfer + replica replacement, with tasks failing at any phase (stranded fences)
 SPECIFICATION Spec
 CONSTANTS
